@@ -100,6 +100,23 @@ Inductive case :=
            block of the store); consensus state running and WaitSync() = false afterwards;
            consensus.NewState on the result (0 ok, 1 panic, 2 not run) *)
 | CPool (start : Z) (ops : list pop) (snap : psnap)
+(* block sync after a state sync (Bootstrap + SaveSeenCommit + SwitchToFastSync) or from genesis,
+   on a chain one block of which carries evidence; real evidence pool in the node's
+   BlockExecutor; honest peers only (monitors only) *)
+| CSS (ih : Z)
+      (snap : Z)                   (* height of the restored snapshot; 0 = block sync from genesis *)
+      (tip : Z)                    (* height every peer announces *)
+      (ev_in ev_of : Z)            (* canonical block ev_in carries evidence of height ev_of *)
+      (obs : Z * Z * bool * Z * bool * bool * N)
+      (* base of the node's block store; State.LastBlockHeight it saved last; everything stored
+         is canonical (whole BlockID, seen commit verified by the harness); honest peers stopped;
+         an honest peer is still connected; the reactor called SwitchToConsensus; the node's own
+         ValidateBlock on the canonical block after its last one: 0 accepts, 1 the evidence pool
+         lacks the header / validators of the evidence height, 2 any other error, 3 not asked *)
+      (sw : N * Z * Z * N * bool)
+      (* SwitchToConsensus: 0 returned, 1 panicked, 2 not called, 3 NewState at start panicked;
+         height of the state handed over; RoundState.Height; LastCommit class (as in CStep);
+         consensus running *)
 (* blockchain/v2: the real scheduler and processor (real store, executor, commit verification)
    wired synchronously as the reactor's demux routine wires them; a liar whose first answer is a
    block of its own making and an honest peer that has the whole chain (monitors only) *)
@@ -408,6 +425,32 @@ Definition check_pool (start : Z) (ops : list pop) (snap : psnap) : list verdict
     mism (zlist_eqb (rev (p_errors pl)) errs) 27;
     mism (Bool.eqb (is_caught_up pl true) caught) 28 ].
 
+(* ------------------------------------------------------------------ CSS (monitors only) *)
+
+Definition check_ss (ih snap tip ev_in ev_of : Z) (obs : Z * Z * bool * Z * bool * bool * N)
+           (sw : N * Z * Z * N * bool) : list verdict :=
+  let '(base, top, canon, hstopped, honest_left, switched, next) := obs in
+  let '(sres, hs, sh, lcc, running) := sw in
+  let reached := switched && (top >=? tip - 1) in
+  (* known finding F89, decided on the implementation's own answers: a state-synced node (its
+     stores begin above the chain's InitialHeight: snapshot height >= InitialHeight) stopped at
+     the block before the canonical block that carries evidence of a height at or below its
+     snapshot, and its own ValidateBlock refuses that block because the evidence pool lacks the
+     header / validators of the evidence height *)
+  let known := (snap >? 0) && (ih <=? snap) && (0 <? ev_in) && (top + 1 =? ev_in) && (ev_of <=? snap)
+               && (next =? 1)%N in
+  [ (* clause 2: what is stored is the canonical chain *)
+    viol canon 2;
+    (* clause 7: every peer is honest: nobody is stopped *)
+    (if 0 <? hstopped then (if known then V_known 89 else V_violation 7) else V_ok);
+    (* clause 8: with an honest peer the node stores every block below the tip and hands over
+       (all peers were honest: none of them may be lost either) *)
+    (if reached then V_ok else (if known then V_known 89 else V_violation 8));
+    (* clauses 5, 41, 42: the hand-over *)
+    viol (negb ((sres =? 1)%N || (sres =? 3)%N)) 5;
+    viol (negb (sres =? 0)%N || ((hs =? top) && (sh =? (if top =? 0 then ih else top + 1)) && running)) 41;
+    viol (negb (sres =? 0)%N || (if top =? 0 then (lcc =? 0)%N else (lcc =? 1)%N)) 42 ].
+
 (* ------------------------------------------------------------------ CV2 (monitors only) *)
 
 Definition check_v2 (tip : Z) (obs : bool * Z * bool * bool * bool * bool * N) : list verdict :=
@@ -434,4 +477,5 @@ Definition check (c : case) : verdict :=
     first_of (check_scen canon start stored tip peers nbad switched ho sc snap)
   | CPool start ops snap => first_of (check_pool start ops snap)
   | CV2 tip obs => first_of (check_v2 tip obs)
+  | CSS ih snap tip ev_in ev_of obs sw => first_of (check_ss ih snap tip ev_in ev_of obs sw)
   end.
